@@ -25,7 +25,7 @@ type c10Case struct {
 	Extra  bool           `json:"extra,omitempty"` // two more addressed files (examined before and after f.snap) holding a STALE entry under an id that is live in f.snap
 }
 
-var c10Universe = []string{"TestA - 1", "TestA - 2", "TestA - 10", "TestA/x - 1", "TestB - 1", "Test_1 - 1", "TestA/c_01 - 1", "TestA/c_1 - 1", "FuzzA/seed#0 - 1", "TestA/9 - 10", "TestA/10 - 9", "TestA/1700000000 - 9"}
+var c10Universe = []string{"TestA - 1", "TestA - 2", "TestA - 10", "TestA/m[k]v - 1", "TestB - 1", "Test_1 - 1", "TestA/c_01 - 1", "TestA/c_1 - 1", "FuzzA/seed#0 - 1", "TestA/9 - 10", "TestA/10 - 9", "TestA/1700000000 - 9"}
 
 var c10Bodies = []string{"a", "", "x\n\ny", "---", "[TestA - 1]", "\n", "/-/-/-/", " ", "b\n", "[TestB - 1]\nz", "\xff", "$1%d", "k:\n[TestQ - 7]\nv", "before\n--- \nafter", "head\n\n[TestA - 1]\ntail", "100% done %s\n%!d(MISSING)", c10Big, c10Long, c10Huge,
 	// bracketed lines that are NOT entry headers (no ` - `, no number, trailing text)
